@@ -3,7 +3,7 @@ CONSTANTS
   NPaths = 3
   Contents = {"ClsDoc", "ClsPlain", "ClsField", "UseFoo", "GInt", "ReqB", "ClsSub"}
   Ops = {"update", "unset", "remove", "reindex"}
-  MaxSteps = 4
+  MaxSteps = 3
   EditDist = 3
   Batch = FALSE
   EmitSel = "reindex"
